@@ -583,3 +583,172 @@ example : OneMarkerLine b!"    ver:'OWASP_CRS/4.0.0',\\" ∧ OneMarkerLine b!"  
     .inr (.inr (.inr (.inr ⟨by decide, by decide, by decide⟩))), .inl ⟨p1b, b!"4.0.0", .inr rfl, by decide, by decide⟩⟩
 
 end Crs.Props
+
+namespace Crs.Props
+open Crs Crs.Copyright
+
+/-! ### lines that begin with a directive word (`SecRule`, `SecAction`, `SecMarker`) -/
+
+/-- the beginnings of the directive words of a rules file other than SecComponentSignature -/
+def IsSecWord (w : Bytes) : Prop := w = b!"SecR" ∨ w = b!"SecA" ∨ w = b!"SecM"
+
+theorem secWord_facts (w : Bytes) (h : IsSecWord w) : '=' ∉ w ∧ '\'' ∉ w ∧ w.head? = some 'S' ∧ ∀ r, stripPrefix? p5 (w ++ r) = none := by
+  rcases h with rfl | rfl | rfl <;> refine ⟨by decide, by decide, rfl, fun r => by simp [p5, stripPrefix?]⟩
+
+theorem splitCh_prefix (sep : Char) (w r f0 : Bytes) (fs0 : List Bytes) (hw : sep ∉ w) (hs : splitCh sep r = f0 :: fs0) :
+    splitCh sep (w ++ r) = (w ++ f0) :: fs0 := by
+  induction w with
+  | nil => simpa using hs
+  | cons c cs ih =>
+    have hc : c ≠ sep := fun e => hw (by simp [e])
+    have := ih (fun h => hw (List.mem_cons_of_mem _ h))
+    simp only [List.cons_append]
+    rw [splitCh_cons_ne sep c _ hc, this]
+    rfl
+
+theorem joinCh_prefix (sep : Char) (w f : Bytes) (X : List Bytes) : joinCh sep ((w ++ f) :: X) = w ++ joinCh sep (f :: X) := by
+  cases X <;> simp [joinCh, List.append_assoc]
+
+/-- the `ver:` pattern keeps a beginning of the line that has no quote in it -/
+theorem sub4_prefix (v w r : Bytes) (hw : '\'' ∉ w) : ∃ r', sub4 v (w ++ r) = w ++ r' := by
+  unfold sub4
+  cases hs : splitCh '\'' r with
+  | nil => exact absurd hs (splitCh_ne_nil _ _)
+  | cons f0 fs0 =>
+    rw [splitCh_prefix '\'' w r f0 fs0 hw hs]
+    exact ⟨_, joinCh_prefix '\'' w f0 _⟩
+
+/-- the setup-version pattern keeps a beginning of the line that has no `=` in it -/
+theorem sub2_prefix (n w r : Bytes) (hw : '=' ∉ w) : ∃ r', sub2 n (w ++ r) = w ++ r' := by
+  unfold sub2
+  cases hs : splitCh '=' r with
+  | nil => exact absurd hs (splitCh_ne_nil _ _)
+  | cons f0 fs0 =>
+    rw [splitCh_prefix '=' w r f0 fs0 hw hs]
+    have hfirst : sub2Fields n none none ((w ++ f0) :: fs0) = (w ++ f0) :: sub2Fields n none (some (w ++ f0)) fs0 := by
+      simp [sub2Fields]
+    rw [hfirst]
+    exact ⟨_, joinCh_prefix '=' w f0 _⟩
+
+theorem stripPrefix?_hash (P cs m : Bytes) (hP : P = '#' :: cs) (hm : m.head? ≠ some '#') : stripPrefix? P m = none := by
+  subst hP
+  cases m with
+  | nil => simp [stripPrefix?]
+  | cons c ms =>
+    have : c ≠ '#' := by simpa using hm
+    simp [stripPrefix?, Ne.symm this]
+
+/-- on a directive line without `=`, only the `ver:` pattern acts -/
+theorem stepLine_ver_only_sec (v y w r : Bytes) (hw : IsSecWord w) (he : '=' ∉ w ++ r) :
+    stepLine v y (w ++ r) = sub4 v (w ++ r) := by
+  obtain ⟨_, hwq, hwh, hw5⟩ := secWord_facts w hw
+  have h0 : (w ++ r).head? ≠ some '#' := by
+    rcases hw with rfl | rfl | rfl <;> simp
+  have s1 : sub1 v (w ++ r) = w ++ r := by
+    unfold sub1
+    rw [stripPrefix?_hash p1a _ _ rfl h0, stripPrefix?_hash p1b _ _ rfl h0]
+  have s2 : sub2 (digitsOf v) (w ++ r) = w ++ r := by
+    unfold sub2
+    rw [splitCh_noSep '=' _ he]
+    simp [sub2Fields, joinCh]
+  have s3 : sub3 y (w ++ r) = w ++ r := by
+    unfold sub3
+    rw [stripPrefix?_hash p3 _ _ rfl h0]
+  obtain ⟨r', hr'⟩ := sub4_prefix v w r hwq
+  have s5 : sub5 v (sub4 v (w ++ r)) = sub4 v (w ++ r) := by
+    rw [hr']
+    unfold sub5
+    rw [hw5 r']
+  unfold stepLine
+  rw [s1, s2, s3, s5]
+
+/-- **C14 (directive line with `ver:'OWASP_CRS/…'` and no `=`: the last invocation wins, composed step).** -/
+theorem C14_ver_sec_line_composed (v1 y1 v2 y2 w r : Bytes) (hv1 : VersionOk v1) (hw : IsSecWord w) (he : '=' ∉ w ++ r) :
+    stepLine v2 y2 (stepLine v1 y1 (w ++ r)) = stepLine v2 y2 (w ++ r) := by
+  obtain ⟨_, hwq, _, _⟩ := secWord_facts w hw
+  rw [stepLine_ver_only_sec v1 y1 w r hw he, stepLine_ver_only_sec v2 y2 w r hw he]
+  obtain ⟨r', hr'⟩ := sub4_prefix v1 w r hwq
+  have he' : '=' ∉ w ++ r' := by
+    rw [← hr']
+    exact sub4_noChar v1 (w ++ r) '=' he (verOk_noEq v1 hv1) (by decide) (by decide)
+  rw [hr', stepLine_ver_only_sec v2 y2 w r' hw he', ← hr']
+  exact C14_secrule_ver_last_wins v1 v2 (w ++ r) hv1
+
+/-- on a directive line without `'`, only the setup-version pattern acts -/
+theorem stepLine_setup_only_sec (v y w r : Bytes) (hw : IsSecWord w) (hs : '\'' ∉ w ++ r) :
+    stepLine v y (w ++ r) = sub2 (digitsOf v) (w ++ r) := by
+  obtain ⟨hwe, _, hwh, hw5⟩ := secWord_facts w hw
+  have h0 : (w ++ r).head? ≠ some '#' := by
+    rcases hw with rfl | rfl | rfl <;> simp
+  obtain ⟨r', hr'⟩ := sub2_prefix (digitsOf v) w r hwe
+  have h0' : (w ++ r').head? ≠ some '#' := by
+    rcases hw with rfl | rfl | rfl <;> simp
+  have hdig : '\'' ∉ digitsOf v := by
+    intro hm; have := (List.mem_filter.mp hm).2; simp [isDigit] at this
+  have hnq : '\'' ∉ w ++ r' := by
+    rw [← hr']; exact sub2_noChar _ (w ++ r) '\'' hs hdig (by decide)
+  have s1 : sub1 v (w ++ r) = w ++ r := by
+    unfold sub1
+    rw [stripPrefix?_hash p1a _ _ rfl h0, stripPrefix?_hash p1b _ _ rfl h0]
+  have s3 : sub3 y (w ++ r') = w ++ r' := by
+    unfold sub3
+    rw [stripPrefix?_hash p3 _ _ rfl h0']
+  have s4 : sub4 v (w ++ r') = w ++ r' := by
+    unfold sub4
+    rw [splitCh_noSep '\'' _ hnq]
+    simp [sub4Fields, joinCh]
+  have s5 : sub5 v (w ++ r') = w ++ r' := by
+    unfold sub5
+    rw [hw5 r']
+  unfold stepLine
+  rw [s1, hr', s3, s4, s5]
+
+/-- **C14 (directive line with `setvar:tx.crs_setup_version=NNN` and no `'`: the last invocation wins, composed step).** -/
+theorem C14_setup_sec_line_composed (v1 y1 v2 y2 w r : Bytes) (hd : ∃ c ∈ v1, isDigit c = true) (hw : IsSecWord w)
+    (hs : '\'' ∉ w ++ r) :
+    stepLine v2 y2 (stepLine v1 y1 (w ++ r)) = stepLine v2 y2 (w ++ r) := by
+  obtain ⟨hwe, _, _, _⟩ := secWord_facts w hw
+  have hdig : '\'' ∉ digitsOf v1 := by
+    intro hm; have := (List.mem_filter.mp hm).2; simp [isDigit] at this
+  rw [stepLine_setup_only_sec v1 y1 w r hw hs, stepLine_setup_only_sec v2 y2 w r hw hs]
+  obtain ⟨r', hr'⟩ := sub2_prefix (digitsOf v1) w r hwe
+  have hs' : '\'' ∉ w ++ r' := by
+    rw [← hr']; exact sub2_noChar _ (w ++ r) '\'' hs hdig (by decide)
+  rw [hr', stepLine_setup_only_sec v2 y2 w r' hw hs', ← hr']
+  exact C14_setup_version_last_wins v1 v2 (w ++ r) hd
+
+end Crs.Props
+
+namespace Crs.Props
+open Crs Crs.Copyright
+
+/-- the lines of a rules file: the kinds of `OneMarkerLine`, and directive lines (`SecRule …`, `SecAction …`, `SecMarker …`)
+    without `=` or without `'` -/
+def RulesLine (l : Bytes) : Prop :=
+  OneMarkerLine l ∨ (∃ w r, IsSecWord w ∧ '=' ∉ w ++ r ∧ l = w ++ r) ∨ (∃ w r, IsSecWord w ∧ '\'' ∉ w ++ r ∧ l = w ++ r)
+
+/-- **C14 (whole rules files, all five patterns composed).** As `C14_file_composed`, with directive lines included: the
+    only lines left out are those that carry both a `=` and a `'` (the two action markers written on one line, or a
+    directive line with both characters). -/
+theorem C14_rules_file_composed (v1 y1 v2 y2 b : Bytes) (hv1 : VersionOk v1) (hv2 : VersionOk v2)
+    (hd : ∃ c ∈ v1, isDigit c = true) (hy1 : isYear4 y1 = true) (hy2 : isYear4 y2 = true)
+    (hkind : ∀ l ∈ scanLines b, RulesLine l)
+    (hgood : ∀ l ∈ scanLines b, GoodLine' (stepLine v1 y1 l)) :
+    updateRules v2 y2 (updateRules v1 y1 b) = updateRules v2 y2 b := by
+  apply updateRules_last_wins_of_line v1 y1 v2 y2 b _ hgood
+  intro l hl
+  rcases hkind l hl with h | ⟨w, r, hw, he, rfl⟩ | ⟨w, r, hw, hs, rfl⟩
+  · rcases h with ⟨P, r, hP, hr, rfl⟩ | ⟨x, q, hx0, hx, hq, he, hs, rfl⟩ | ⟨r, he, hs, rfl⟩ | ⟨h0, h1, he⟩ | ⟨h0, h1, hs⟩
+    · exact C14_header_line_composed P v1 y1 v2 y2 r hP hv1 hv2 hr
+    · exact C14_signature_line_composed v1 y1 v2 y2 x q hv1 hv2 hx0 hx hq he hs
+    · exact C14_year_line_composed v1 y1 v2 y2 r hy1 hy2 he hs
+    · exact C14_ver_line_composed v1 y1 v2 y2 l hv1 h0 h1 he
+    · exact C14_setup_line_composed v1 y1 v2 y2 l hd h0 h1 hs
+  · exact C14_ver_sec_line_composed v1 y1 v2 y2 w r hv1 hw he
+  · exact C14_setup_sec_line_composed v1 y1 v2 y2 w r hd hw hs
+
+/-- non-vacuity: the opening line of a rule is a rules line -/
+example : RulesLine b!"SecRule ARGS \"@rx foo\" \\" :=
+  .inr (.inl ⟨b!"SecR", b!"ule ARGS \"@rx foo\" \\", .inl rfl, by decide, by decide⟩)
+
+end Crs.Props
